@@ -334,6 +334,15 @@ func (m *monitors) onResponse(r *run, c *call, res callResult, dropped bool) {
 
 func (m *monitors) afterEvent(r *run) {
 	r.checkClientCrash()
+	if r.on("entry") && len(m.entries) > 0 {
+		// entry requests that were not part of a Sync event (a realtime client enters by itself, while
+		// the world settles): judged like entries that raced with others
+		for _, c := range r.w.tr.calls {
+			if m.entries[c] != nil && c.state == "finished" {
+				m.checkEntries(r, c, true)
+			}
+		}
+	}
 	if gap := r.w.mongo.Gap(); gap != "" {
 		r.harness("MongoDB stand-in does not model: %s", gap)
 	}
